@@ -19,6 +19,8 @@ V = os.path.dirname(os.path.dirname(os.path.abspath(__file__)))
 def run_one(d):
     meta = json.load(open(os.path.join(d, "meta.json")))
     prop = meta["property"]
+    if meta.get("expected") == "retired":          # no longer a property-breaking change on the current tree (see its note)
+        return os.path.basename(d), prop, "caught", "retired"
     scratch = tempfile.mkdtemp(prefix="reg-", dir="/dev/shm")
     try:
         dst = os.path.join(scratch, "repo")
